@@ -84,6 +84,10 @@ impl<C: RelocatableContainer> RelocBlock<C> {
     pub fn get(&self) -> &mut C {
         unsafe { &mut *self.c }
     }
+    /// address range of the whole block (container header + its data)
+    pub fn range(&self) -> (usize, usize) {
+        (self.base as usize, self.layout.size())
+    }
 }
 impl<C> Drop for RelocBlock<C> {
     fn drop(&mut self) {
